@@ -25,6 +25,12 @@ INPUTS = {
     "shared": [{"left": {"item": {"sku": "s", "qty": 1, "w": 1.5}, "l": 1}, "right": {"item": {"sku": "t", "qty": 2, "w": 2.5, "opt": 1}, "r": "x"}}],
     "names": [{"users": [{"address": {"city": "c", "zip": "1", "geo": 1}}], "orders": [{"address": {"city": "d", "zip": "2", "geo": 2, "note": "n"}}],
                "shipping_address": {"city": "e", "zip": "3", "geo": 3}}],
+    # a self-recursive root whose nested models are used both by the root and by one another: no model is a "root" in the sense of
+    # extract_root (every model has a parent pointer), so the layout code falls back to its set of parent indexes (a set of str)
+    "recursive_shared": [{"val": 1, "children": [{"val": 2, "children": [], "info": {"a": 1, "b": "x"}, "extra": {"c": 1.5, "info": {"a": 2, "b": "y"}}}],
+                          "info": {"a": 3, "b": "z"}, "extra": {"c": 2.5, "info": {"a": 4, "b": "w"}}}],
+    # the same without recursion: a grandchild shared by its parent and its grandparent
+    "shared_by_parent_and_grandparent": [{"info": {"a": 3, "b": "z"}, "extra": {"c": 2.5, "info": {"a": 4, "b": "w"}, "more": {"d": 1, "info": {"a": 5, "b": "v"}}}}],
     "literals": [{"kind": "b", "tags": ["y", "x"]}, {"kind": "a", "tags": ["z"]}, {"kind": "c", "tags": []}],
 }
 
@@ -119,7 +125,8 @@ def scen_seeds_literals(ch, params, out):
     """sets of str (literal sets, name parts) cannot be re-ranked from outside: checked by sorted()-ness of the output under two real seeds"""
     import os
     import subprocess
-    inp = ch.choose("input", ["literals", "names", "merge3", "case_literals", "equal_models", "many_refs"], shard=False)
+    inp = ch.choose("input", ["literals", "names", "merge3", "case_literals", "equal_models", "many_refs", "recursive_shared",
+                              "shared_by_parent_and_grandparent"], shard=False)
     seed = 1 + ch.pick("seed", params.get("seeds", 6))
     outs = []
     for s in (0, seed):
